@@ -4,7 +4,7 @@ and archives it under /verif/seeded/<id>/<mut>/.   usage: tools/confirm_seeded.p
 import json, os, shutil, subprocess, sys, concurrent.futures as cf
 V = os.path.dirname(os.path.dirname(os.path.abspath(__file__)))
 LIB_DEMOS = {"": {("C12", "mutA"), ("C12", "mutB"), ("C19", "mutB")}, "r2": {("C12", "mutA"), ("C11", "mutB")},
-             "r3": {("2", "mutB"), ("6", "mutB"), ("9", "mutB")}}[os.environ.get("SEEDED_ROUND", "")]        # demo takes the checkout path, not the binary
+             "r3": {("2", "mutB"), ("6", "mutB"), ("9", "mutB")}, "r4": {("10", "mutA")}}[os.environ.get("SEEDED_ROUND", "")]        # demo takes the checkout path, not the binary
 
 def sh(cmd, cwd=None, timeout=1800, env=None):
     p = subprocess.run(cmd, cwd=cwd, shell=isinstance(cmd, str), stdout=subprocess.PIPE, stderr=subprocess.STDOUT, text=True, timeout=timeout, env=env)
@@ -12,8 +12,11 @@ def sh(cmd, cwd=None, timeout=1800, env=None):
 
 ROUND = os.environ.get("SEEDED_ROUND", "")          # "" = first round (/tmp/xcp-wt-*), "r2" = second round (/tmp/xcp-r2-*)
 
+def GROUP(pid):
+    return {"r3": "r3-file%s", "r4": "r4-theme%s"}.get(ROUND, "%s") % pid
+
 def confirm(pid, mut):
-    src = {"r2": "/tmp/xcp-r2-%s/_out", "r3": "/tmp/xcp-r3-%s/_out"}.get(ROUND, "/tmp/xcp-wt-%s/_out") % pid
+    src = {"r2": "/tmp/xcp-r2-%s/_out", "r3": "/tmp/xcp-r3-%s/_out", "r4": "/tmp/xcp-r4-%s/_out"}.get(ROUND, "/tmp/xcp-wt-%s/_out") % pid
     diff = os.path.join(src, mut + ".diff"); demo = os.path.join(src, mut + "_demo.sh")
     if not (os.path.exists(diff) and os.path.exists(demo)):
         return pid, mut, {"status": "absent"}
@@ -40,15 +43,17 @@ def confirm(pid, mut):
         ok = meta["builds"] and meta["tests_pass_with_change"] and rc1 != 0 and rc0 == 0
         meta["status"] = "confirmed" if ok else "rejected"
         if ok:
-            dst = os.path.join(V, "seeded", ("r3-file%s" % pid) if ROUND == "r3" else pid, (ROUND + "-" if ROUND in ("r2",) else "") + mut)
+            dst = os.path.join(V, "seeded", GROUP(pid), (ROUND + "-" if ROUND in ("r2",) else "") + mut)
             os.makedirs(dst, exist_ok=True)
             shutil.copy(diff, os.path.join(dst, "patch.diff")); shutil.copy(demo, os.path.join(dst, "demo.sh"))
             for extra in os.listdir(src):
                 if extra.endswith((".c", ".py", ".rs")) and os.path.getsize(os.path.join(src, extra)) < 200000:
                     shutil.copy(os.path.join(src, extra), os.path.join(dst, extra))
+                if os.path.isdir(os.path.join(src, extra)) and extra.startswith(mut):
+                    shutil.copytree(os.path.join(src, extra), os.path.join(dst, extra), dirs_exist_ok=True)
             notes = os.path.join(src, "notes.md")
             if os.path.exists(notes):
-                shutil.copy(notes, os.path.join(V, "seeded", ("r3-file%s" % pid) if ROUND == "r3" else pid, ("notes-%s.md" % ROUND) if ROUND else "notes.md"))
+                shutil.copy(notes, os.path.join(V, "seeded", GROUP(pid), ("notes-%s.md" % ROUND) if ROUND else "notes.md"))
             meta["ran"] = ["git worktree add (HEAD) + git apply patch.diff", "cargo build --offline", "tools/baseline.sh (XCP_REPO=worktree): the 126 baseline tests pass",
                            "bash demo.sh <changed> -> exit %d" % rc1, "bash demo.sh <unchanged> -> exit 0"]
             json.dump(meta, open(os.path.join(dst, "meta.json"), "w"), indent=1)
@@ -57,7 +62,7 @@ def confirm(pid, mut):
         sh(["git", "-C", "/repo", "worktree", "remove", "--force", wt]); shutil.rmtree(wt, ignore_errors=True)
 
 def main():
-    ids = sys.argv[1:] or ([str(i) for i in range(1, 11)] if ROUND == "r3" else ["C%02d" % i for i in range(1, 21)])
+    ids = sys.argv[1:] or ([str(i) for i in range(1, 11)] if ROUND in ("r3", "r4") else ["C%02d" % i for i in range(1, 21)])
     sh("cargo build --offline", cwd="/repo")
     jobs = [(p, m) for p in ids for m in ("mutA", "mutB")]
     with cf.ThreadPoolExecutor(max_workers=3) as ex:
